@@ -34,6 +34,10 @@ def main() -> int:
         d = os.path.join(SEEDED, name)
         meta = json.load(open(os.path.join(d, 'meta.json')))
         checks = [meta['property']] + list(meta.get('also', []))
+        if meta.get('status') == 'neutralised':
+            print(f'{name:28s} skipped: {meta.get("status_note", "")[:100]}')
+            results[name] = {'skipped': meta.get('status_note', '')}
+            continue
         try:
             subprocess.check_call(['git', '-C', '/repo', 'apply',
                                    os.path.join(d, 'patch.diff')])
